@@ -52,7 +52,11 @@ fn digits(mut n: usize) -> Vec<i128> {
 
 fn main() {
     let a = args();
-    let lens: Vec<usize> = if a.tier == "thorough" {
+    let lens: Vec<usize> = if let Some(c) = &a.replay {
+        // the length of the replayed case: [4, ty, nd, digits..]
+        let nd = c[2] as usize;
+        vec![c[3..3 + nd].iter().enumerate().map(|(i, d)| (*d as usize) << i).sum()]
+    } else if a.tier == "thorough" {
         (0..=40).chain([63, 64, 65, 100, 127, 128, 255, 256, 1000, 1023, 1024]).collect()
     } else {
         vec![0, 1, 2, 3, 4, 5, 6, 7, 8, 10, 15, 16, 33, 64, 1000, 1024]
